@@ -37,9 +37,9 @@ def tasks(tier):
     out = []
     for algo in ALGOS:
         for sid in cm.BOX_IDS:
-            out.append({"algo": algo, "space": sid, "mode": "W", "_cost": 20})
+            out.append({"algo": algo, "space": sid, "mode": "W", "_cost": 0.5})
             for kind in cm.OBS_KINDS:
-                out.append({"algo": algo, "space": sid, "mode": "S", "obs": kind, "_cost": 120})
+                out.append({"algo": algo, "space": sid, "mode": "S", "obs": kind, "_cost": 3})
     return out
 
 
